@@ -1039,7 +1039,9 @@ class Interp:
             return r
         if d.tag in ("uniform", "dist"):
             r = self.fresh("uniform", "real")
-            self.c.assume(z3.And(r >= 0, r < 1))
+            # A2: uniform_real_distribution(0,1) returns a value in [0,1); the engine divides by it
+            # (log(1/u)), so the draw is assumed strictly positive
+            self.c.assume(z3.And(r > 0, r < 1))
             self.trace.append(("uniform", r))
             return r
         raise Unsupported("call of %s" % d.tag)
@@ -1154,7 +1156,7 @@ class Interp:
         if name == "log":
             x = self.to_real(args[0])
             r = CLOG(x)
-            self.c.assume(z3.And(z3.Implies(x > 1, r > 0), z3.Implies(x == 1, r == 0)))
+            self.c.assume(z3.And(z3.Implies(x > 1, r > 0), z3.Implies(x == 1, r == 0), z3.Implies(z3.And(x > 0, x < 1), r < 0)))
             return r
         if name == "sqrt":
             x = self.to_real(args[0])
@@ -1305,6 +1307,7 @@ class Interp:
             ret = r.value
         finally:
             self.depth -= 1
+            self.last_frame_locals = {nf.names.get(did): v for did, v in nf.locals.items()}
         if ret is not None and z3.is_expr(ret):
             k = kind_of_type(fn["type"]["qualType"].split("(")[0])
             if k:
